@@ -43,6 +43,15 @@ def cases(tier, seed):
 
 
 def run_case(case, ctx):
+    _run(case, ctx, None)
+    if case["s"] % 4 == 0 and tuple(case["dims"]) != (1, 1, 1):
+        # right afterwards, in the same process: the same crystal described in a rotated frame - cell lengths and angles are
+        # identical to the structure just replicated, the cell vectors are not
+        _run(case, ctx, "rotated_twin")
+        ctx.stats.count("replications_of_a_rotated_twin_right_after_the_original")
+
+
+def _run(case, ctx, variant):
     rng = np.random.default_rng(case["s"])
     st = ctx.stats
     dims = tuple(case["dims"])
@@ -64,6 +73,11 @@ def run_case(case, ctx):
         st.count("structures_with_an_atom_at_the_origin")
         if len(a) == 1:
             st.count("one_atom_cells_with_the_atom_at_the_origin")
+    if variant == "rotated_twin":
+        from vmon.oracle.geometry import random_rotation
+        Rm = random_rotation(np.random.default_rng(case["s"] + 1))
+        a.cell = np.array(a.cell, float).dot(Rm.T)
+        a.positions = np.asarray(a.positions, float).dot(Rm.T)
     snap = clone(a)
     m0 = AM.resolve(a)
     cell = np.array(a.cell, float)
@@ -176,6 +190,8 @@ def requirements(stats, tier):
     need = []
     if stats.get("structures_with_two_atom_types_of_one_label") < 20:
         need.append("structures with two atom types of one label: %d replications" % stats.get("structures_with_two_atom_types_of_one_label"))
+    if stats.get("replications_of_a_rotated_twin_right_after_the_original") < (20 if tier == "quick" else 500):
+        need.append("replications of a rotated twin right after the original: %d" % stats.get("replications_of_a_rotated_twin_right_after_the_original"))
     if stats.get("one_atom_cells_with_the_atom_at_the_origin") < 3:
         need.append("one-atom cells with the atom at the origin: %d" % stats.get("one_atom_cells_with_the_atom_at_the_origin"))
     F = 3 if tier == "quick" else 5
